@@ -261,8 +261,8 @@ def run(tier, seed):
     if not okm:
         v.tie_failure("model driver build failed: " + outm[-300:])
     cases = gen_cases(tier, seed)
-    stats = {"cases": len(cases), "int_int": 0, "with_float": 0, "none_results": 0, "model_disagreements": 0,
-             "spec_disagreements": 0, "oracle_no_opinion": 0}
+    import collections
+    stats = collections.Counter({"cases": len(cases)})
     distinct = set()
     samples = []
     if ok:
@@ -310,21 +310,120 @@ def run(tier, seed):
                     stats["model_disagreements"] += 1
                     if stats["model_disagreements"] <= 5:
                         v.tie_failure("correspondence numop (%s): %s impl=%s model=%s" % (profile, case, res, mres))
+    n_exec = exec_stage(v, tier, seed, stats)
     v.coverage.update({
-        "evaluations": len(cases) * len(profiles),
+        "evaluations": len(cases) * len(profiles) + n_exec,
         "distinct_nontrivial": len(distinct),
         "rule": "boundary lattice of i32 values (MIN, MIN+1, +-2^k+-1, small, MAX-1, MAX) x every binary/unary operation "
                 "exhaustively, seeded random i32 pairs, float x float and mixed pairs over zeros, subnormals, huge, "
                 "fractional and random values; a case is non-trivial when the operation returns a number (not unit)",
         "samples": samples,
-        "histogram": stats,
+        "histogram": dict(stats),
         "profiles": profiles,
     })
     return v.finish("proof")
 
 
+# ------------------------------------------------ instruction level (both data implementations)
+SRC_OPS = {"add": "+", "sub": "-", "mul": "*", "div": "/", "idiv": "//", "rem": "%", "pow": "**",
+           "and": "&", "or": "|", "xor": "^", "shl": "<<", "shr": ">>"}
+INT_LITS = [0, 1, 2, 3, 5, 7, 31, 32, 33, 1000, 46341, 65536, 2147483646, 2147483647]
+FLT_LITS = ["0.0", "0.5", "1.0", "2.0", "2.5", "5.0", "7.0", "31.0", "1000.0", "2147483647.0", "2147483648.0", "0.1"]
+
+
+def lit_val(text):
+    return ("f", float(text)) if "." in text else ("i", int(text))
+
+
+def apply_op(op, l, r):
+    """expected result of one instruction on tagged numbers; returns tagged number or None (unit)"""
+    if l is None or r is None:
+        return "undef"          # arithmetic on unit: not C09's business
+    if l[0] == "i" and r[0] == "i":
+        e = expect_int_bin(op, l[1], r[1])
+    else:
+        if op == "pow":
+            return "undef"      # powf oracle not available at this level
+        e = expect_float_bin(op, l, r, "-")
+    if e is None:
+        return "undef"
+    if e == "None":
+        return None
+    if e.startswith("I:"):
+        return ("i", int(e[2:], 16))
+    return ("f", struct.unpack("<d", struct.pack("<Q", int(e[2:], 16)))[0])
+
+
+def show_tagged(v):
+    if v is None:
+        return "U"
+    return ("i" + (("-%x" % -v[1]) if v[1] < 0 else ("%x" % v[1]))) if v[0] == "i" else ("f%016x" % struct.unpack("<Q", struct.pack("<d", v[1]))[0])
+
+
+def exec_stage(v, tier, seed, stats):
+    """run one- and two-operation numeric programs through lex/parse/build/execute on BOTH data
+    implementations and compare the final value (type-exact) with the oracle"""
+    import re
+    ok, out = vplib.cargo_build("debug", bins=["exec"])
+    if not ok:
+        v.tie_failure("exec harness build failed: " + out[-300:])
+        return 0
+    exe = vplib.private_copy(vplib.harness_bin("exec"))
+    rng = vplib.rng_for(seed, "C09-exec")
+    lits = [str(i) for i in INT_LITS] + FLT_LITS
+    progs = []
+    for op in SRC_OPS:
+        for a in lits:
+            for b in lits:
+                progs.append(([a, b], [op]))
+    for _ in range(60000 if tier == "thorough" else 6000):
+        progs.append(([rng.choice(lits), rng.choice(lits), rng.choice(lits)], [rng.choice(list(SRC_OPS)), rng.choice(list(SRC_OPS))]))
+    cases = []
+    for lts, ops in progs:
+        src = lts[0] + " " + SRC_OPS[ops[0]] + " " + lts[1]
+        if len(ops) == 2:
+            src = "(" + src + ") " + SRC_OPS[ops[1]] + " " + lts[2]
+        cases.append("E " + ",".join("%x" % ord(c) for c in src) + "|U|-|")
+    rc, lines = vplib.run_lines([exe], "\n".join(cases) + "\n", timeout=1800)
+    try:
+        vplib.os.remove(exe)
+    except OSError:
+        pass
+    if len(lines) != len(cases):
+        v.tie_failure("exec harness: %d of %d lines" % (len(lines), len(cases)))
+        return 0
+    for (lts, ops), line in zip(progs, lines):
+        res = line.split("\t")[1]
+        a0, b0 = lit_val(lts[0]), lit_val(lts[1])
+        cur = apply_op(ops[0], a0, b0)
+        # known finding C09-K1 at this level: a float `//` whose exact result is unit (the code saturates)
+        k1 = ops[0] == "idiv" and "f" in (a0[0], b0[0]) and cur is None
+        if cur != "undef" and len(ops) == 2:
+            c0 = lit_val(lts[2])
+            nxt = apply_op(ops[1], cur, c0)
+            k1 = k1 or (ops[1] == "idiv" and cur is not None and "f" in (cur[0], c0[0]) and nxt is None)
+            cur = nxt
+        if cur == "undef":
+            stats["exec_oracle_no_opinion"] += 1
+            continue
+        want = show_tagged(cur)
+        m = re.search(r" S=OK v=(\S+) ", res)
+        got = m.group(1) if m else res[:80]
+        same_basic = " X=same" in res
+        src = "".join(chr(int(x, 16)) for x in line.split("\t")[0][2:].split("|")[0].split(","))
+        stats["exec_checked"] += 1
+        if (got != want or not same_basic) and k1 and "C09-K1" in {f["id"] for f in vplib.findings_for(PID)}:
+            v.known_hit("C09-K1", "%s -> %s (expected %s)" % (src, got, want))
+            stats["exec_known"] += 1
+        elif got != want or not same_basic:
+            v.violation(component="exec", input=line.split("\t")[0], source=src, impl=res[:300], expected=want,
+                        what="result of the arithmetic instructions differs from the exact/IEEE result or unit"
+                             + ("" if same_basic else " (the two data implementations disagree)"))
+    return len(cases)
+
+
 def replay(obj):
-    cases = [x["input"] for x in obj.get("violations", [])]
+    cases = [x["input"] for x in obj.get("violations", []) if x.get("component") == "numop"]
     if not cases:
         print("replay names a broken tie, not an input:", obj.get("no_longer_checks"))
         return run("quick", obj.get("seed", 0))
